@@ -341,9 +341,9 @@ Definition op_descs (o : op) : option (list Desc) :=
   end.
 Definition pool_colls (ops : list op) : list (list Desc) :=
   flat_map (fun o => match op_descs o with Some l => [l] | None => [] end) ops.
-(* executable form of ids_exact_on / dims_exact_on / sums_exact_on over the history's descriptors *)
+(* executable form of ids_exact_on / dims_exact_on / cids_exact_on over the history's descriptors *)
 Definition no_collision (ops : list op) : bool :=
-  ids_exact_list_b (concat (pool_colls ops)) && dims_exact_list_b (concat (pool_colls ops)) && sums_exact_list_b (pool_colls ops).
+  ids_exact_list_b (concat (pool_colls ops)) && dims_exact_list_b (concat (pool_colls ops)) && cids_exact_list_b (pool_colls ops).
 
 Lemma amap_of_id_gen {V} (l : list (str * V)) : forall acc,
   NoDup (map fst (acc ++ l)) -> fold_left (fun m kv => ainsert (fst kv) (snd kv) m) l acc = acc ++ l.
@@ -582,8 +582,8 @@ Section Model.
   Proof. unfold no_collision in NC. rewrite !andb_true_iff in NC. apply ids_exact_on_list. tauto. Qed.
   Lemma Hdims : dims_exact_on P.
   Proof. unfold no_collision in NC. rewrite !andb_true_iff in NC. apply dims_exact_on_list. tauto. Qed.
-  Lemma Hsums : sums_exact_on CP.
-  Proof. unfold no_collision in NC. rewrite !andb_true_iff in NC. apply sums_exact_on_list. tauto. Qed.
+  Lemma Hcids : cids_exact_on CP.
+  Proof. unfold no_collision in NC. rewrite !andb_true_iff in NC. apply cids_exact_on_list. tauto. Qed.
   Lemma op_descs_CP o l : In o ops0 -> op_descs o = Some l -> CP l.
   Proof. intros Ho E. apply in_flat_map. exists o. split; auto. rewrite E. left. auto. Qed.
 
@@ -1180,7 +1180,7 @@ Section Model.
     assert (Hr : slot w r = HRegistry ri) by (apply H1, has_slot_In; exact Hs).
     destruct (I2 s sds Hn) as (c & Ds & Hc & Hrel & HCP).
     pose proof (world_register_step w r s ri rc c Ds Hr Hc Hrc) as St.
-    pose proof (register_refines P CP CP_P Hids Hdims Hsums st rc Ds c A S HCP) as R.
+    pose proof (register_refines P CP CP_P Hids Hdims Hcids st rc Ds c A S HCP) as R.
     pose proof (expected_is_spec_register st (r_labels rc) Ds c) as X. rewrite Hl, <- (expected_corr x st sds Ds AR Hrel) in X.
     destruct (reg_register rc Ds c) as [rc'|e] eqn:E.
     - destruct R as (R1 & _). rewrite Hl in R1. rewrite R1 in X. cbn [res_unit] in X.
@@ -1188,7 +1188,7 @@ Section Model.
       + apply (inv_set_reg w slots regs _ ri rc' rc I Hrc). apply (reg_update w regs r ri rc rc' (ar_add c sds) Hr Hrc).
         * apply Forall_forall. exact I5.
         * intros y st0 Hy Hsy A0 S0 AR0 Hl0 Hp0.
-          pose proof (register_refines P CP CP_P Hids Hdims Hsums st0 rc Ds c A0 S0 HCP) as R0. rewrite E in R0.
+          pose proof (register_refines P CP CP_P Hids Hdims Hcids st0 rc Ds c A0 S0 HCP) as R0. rewrite E in R0.
           destruct R0 as (_ & A' & S' & Hl'). exists (s_add st0 Ds c). split; [exact A'|]. split; [exact S'|]. split; [|split; [|split]].
           -- destruct AR0 as [C0 E0]. split; cbn [ar_add ar_cur ar_ever s_add s_cur s_hist].
              ++ apply F2_app; [exact C0|]. constructor; [|constructor]. split; [reflexivity|exact Hrel].
@@ -1224,7 +1224,7 @@ Section Model.
     assert (Hr : slot w r = HRegistry ri) by (apply H1, has_slot_In; exact Hs).
     destruct (I2 s sds Hn) as (c & Ds & Hc & Hrel & HCP).
     pose proof (world_unregister_step w r s ri rc c Ds Hr Hc Hrc) as St.
-    pose proof (unregister_refines P CP CP_P Hids Hsums st rc Ds A S HCP) as R.
+    pose proof (unregister_refines P CP CP_P Hids Hcids st rc Ds A S HCP) as R.
     pose proof (registered_corr x st sds Ds AR Hrel) as X.
     destruct (reg_unregister rc Ds) as [rc'|e] eqn:E.
     - destruct R as (R1 & _). apply spec_unregister_Ok_inv in R1 as [R1 _]. rewrite R1 in X.
@@ -1232,7 +1232,7 @@ Section Model.
       + apply (inv_set_reg w slots regs _ ri rc' rc I Hrc). apply (reg_update w regs r ri rc rc' (ar_del false sds) Hr Hrc).
         * apply Forall_forall. exact I5.
         * intros y st0 Hy Hsy A0 S0 AR0 Hl0 Hp0.
-          pose proof (unregister_refines P CP CP_P Hids Hsums st0 rc Ds A0 S0 HCP) as R0. rewrite E in R0.
+          pose proof (unregister_refines P CP CP_P Hids Hcids st0 rc Ds A0 S0 HCP) as R0. rewrite E in R0.
           destruct R0 as (U & A' & S' & Hl'). exists (s_del st0 (collector_id Ds)). split; [exact A'|]. split; [exact S'|]. split; [|split; [|split]].
           -- apply spec_unregister_Ok_inv in U as [_ ->]. destruct AR0 as [C0 E0]. split; cbn [ar_del ar_cur ar_ever s_cur s_hist]; [|exact E0].
              apply F2_filter; [exact C0|]. intros e f [_ Hef]. f_equal. apply rel_same_coll; auto.
